@@ -293,7 +293,11 @@ func c15Baseline(st *stack.Stack, port int) (int, int, int) {
 	cl.Close()
 	time.Sleep(20 * time.Millisecond)
 	var g int
-	for i := 0; i < 200; i++ { // settle
+	// settle: every earlier client's backend connections are gone and the goroutine
+	// count stands still.  Normally a few milliseconds; on a machine that is busy
+	// with other work the server may need seconds to notice a closed client, and a
+	// baseline taken too early would make the next case expect a connection too many.
+	for i := 0; i < 15000; i++ {
 		g = runtime.NumGoroutine()
 		time.Sleep(2 * time.Millisecond)
 		if runtime.NumGoroutine() == g && st.L1.OpenConns() == 0 && (st.L2 == nil || st.L2.OpenConns() == 0) {
